@@ -2,13 +2,14 @@
 The fifth alphabet `OpM` — everything whose step keeps `Inv` (parent fields in step with the structure, local file sets within
 the effective set of the parent) WITHOUT the index invariant: the core operations, rename, sort, `set_reference_target`
 (guarded by unique element ids in the state), and `load_buffer` both as a first load and as a MERGING load (guarded by a
-decidable predicate of the state: unique element ids in the model, the root element carries the files of the model).
+decidable predicate of the state: unique element ids in the model).
 `ReachLM` starts from any state of the fourth alphabet (`ReachL`: moves, copies and guarded first loads included) and
 continues with guarded steps of `OpM`.
 
 * `reachLM_inv`: `Inv` in every state of `ReachLM`;
-* `LoadMergeWitness`: the guard on the file sets cannot be dropped — a history of `ReachL` followed by one accepted merging
-  load after which an element is restricted to a file that does not contain its parent (C10 fails in the model).
+* `LoadMergeWitness`: regression for the repaired defect c10 (merge restricted the elements that are only in the model to
+  ALL files of the model instead of the file set of the root element): the history that violated C10 before the repair now
+  ends in a state with `filesOk`, passes the guard of the fifth alphabet, and is a history of `ReachLM`.
 -/
 import AutosarVerif.Lemmas.StepL
 import AutosarVerif.Lemmas.LoadMerge
@@ -36,14 +37,11 @@ def applyOpM (w : World) : OpM → World × String
   | .load k name strict buf => ((opLoad S V nmAutosar w k name strict buf).1, (opLoad S V nmAutosar w k name strict buf).2.show)
 
 /-- the guard of a load in the state `w`: a model without files takes any document; a model with files must have pairwise
-different element ids below its root, sub-elements of the root consistent with the set of all files of the model, and every
-file of the model in the local set of the root -/
+different element ids below its root (nothing is asked of the file sets or the file ids) -/
 def MLoadOk (w : World) (k : Nat) : Prop :=
   match w.models[k]? with
   | none => True
-  | some m => m.files.isEmpty = true ∨
-      (m.rootKids.ids.Nodup ∧ FilesOk (m.files.map (·.id)) m.rootKids ∧
-        ∀ g ∈ m.files.map (·.id), g ∈ m.rootHdr.files ∨ g = w.nextFile)
+  | some m => m.files.isEmpty = true ∨ m.rootKids.ids.Nodup
 
 instance (w : World) (k : Nat) : Decidable (MLoadOk w k) := by
   unfold MLoadOk
@@ -65,6 +63,9 @@ inductive ReachLM : World → Prop
   | step (w : World) (op : OpM) : ReachLM w → StepOkM w op → ReachLM (applyOpM S V rootAttrs nmAutosar w op).1
 
 variable {S V vOk rootAttrs nmAutosar}
+
+theorem applyOpM_load (w : World) (k : Nat) (name : Bytes) (strict : Bool) (buf : Bytes) :
+    (applyOpM S V rootAttrs nmAutosar w (.load k name strict buf)).1 = (opLoad S V nmAutosar w k name strict buf).1 := rfl
 
 /-- a load into a model without files keeps `Inv`, whatever the document -/
 theorem opLoad_first_inv (w : World) (k : Nat) (m : Model) (name : Bytes) (strict : Bool) (buf : Bytes)
@@ -98,11 +99,11 @@ theorem applyOpM_inv (w : World) (op : OpM) (hop : StepOkM w op) (hi : Inv w) :
     | none => rw [opLoad_none w k name strict buf hm]; exact hi
     | some m =>
       simp only [hm] at hop
-      rcases hop with hemp | ⟨hn, hf1, hf2⟩
+      rcases hop with hemp | hn
       · exact opLoad_first_inv w k m name strict buf hm (by simpa using hemp) hi
       · cases hf : m.files.isEmpty with
         | true => exact opLoad_first_inv w k m name strict buf hm (by simpa using hf) hi
-        | false => exact opLoad_merge_inv S V nmAutosar w k m name strict buf hm hf hn ⟨hf1, hf2⟩ hi
+        | false => exact opLoad_merge_inv S V nmAutosar w k m name strict buf hm hf hn hi
 
 /-- **`Inv` in every state reachable through core operations, rename, sort, set_reference_target, move, copy, guarded first
 loads (the prefix of the fourth alphabet) and then core operations, rename, sort, set_reference_target, first loads and
@@ -116,7 +117,7 @@ theorem reachLM_inv (hH : IdxHyp S V vOk) (hR : RefWF S) (hv32 : vOk &&& 0xFFFFF
 
 end
 
-/-! ### the guard on the file sets cannot be dropped -/
+/-! ### regression: the history that violated C10 before the repair of `merge_file_data` -/
 
 namespace LoadMergeWitness
 open AV.LoadInv.Witness AV.W.LoadExamples
@@ -147,22 +148,31 @@ theorem wPre_ginv : GInv ldOkSpec 3 wPre :=
 theorem wPre_state : wPre.models.map (fun m => (m.rootHdr.files, m.files.map (·.id), m.rootItems.hdrs.map (fun h => (h.id, h.files)))) =
     [([0], [0, 1], [(0, [0]), (1, [0]), (2, []), (3, [0]), (4, []), (5, []), (6, [])])] := by decide +kernel
 
-/-- the merging load of a document with an empty root is accepted; the package 5, which is only in the model, is restricted
-to ALL files of the model (0 and 1) although its parent, the root, is in the files 0 and 2 -/
+/-- the merging load of a document with an empty root is accepted; the package 5, which is only in the model and has no file
+set of its own, is restricted to the file set of the ROOT ELEMENT before the load (file 0).  (Before the repair of
+`merge_file_data` it was restricted to ALL files of the model, `[0, 1]`, although its parent, the root, is in the files 0 and
+2 afterwards: the state violated C10, `¬ wPost.filesOk`; confirmed on the library, repaired.) -/
 theorem wPost_state : (opLoad ldOkSpec ldOkEnv 100 wPre 0 [104] true emptyDoc).2.show = "ok f2 w0 -" ∧
     wPost.models.map (fun m => (m.rootHdr.files, m.files.map (·.id), m.rootItems.hdrs.map (fun h => (h.id, h.files)))) =
-    [([0, 2], [0, 1, 2], [(0, [0, 2]), (1, [0]), (2, []), (3, [0]), (4, []), (5, [0, 1]), (6, [])])] := by decide +kernel
+    [([0, 2], [0, 1, 2], [(0, [0, 2]), (1, [0]), (2, []), (3, [0]), (4, []), (5, [0]), (6, [])])] := by decide +kernel
 
-/-- **C10 fails after the load**: the hypothesis `MergeFiles` of `opLoad_merge_inv` cannot be dropped (the other hypotheses
-hold: `wPre_ginv`) -/
-theorem wPost_not_filesOk : ¬ wPost.filesOk := by
-  intro h
-  have : ∀ m ∈ wPost.models, FilesOk m.rootHdr.files m.rootKids := h
-  revert this
-  decide +kernel
+/-- **regression: C10 holds after the load** (checked on the state) … -/
+theorem wPost_filesOk : wPost.filesOk := by
+  have : ∀ m ∈ wPost.models, FilesOk m.rootHdr.files m.rootKids := by decide +kernel
+  exact this
 
-/-- the guard of the fifth alphabet refuses this load -/
-example : ¬ MLoadOk wPre 0 := by decide +kernel
+/-- … the load passes the guard of the fifth alphabet … -/
+example : MLoadOk wPre 0 := by decide +kernel
+
+/-- … so the state after it is a state of `ReachLM`, and `Inv` holds BY THE THEOREM -/
+theorem wPost_reach : ReachLM ldOkSpec ldOkEnv 3 [] 100 wPost := by
+  have h : ReachLM ldOkSpec ldOkEnv 3 [] 100 (applyOpM ldOkSpec ldOkEnv [] 100 wPre (.load 0 [104] true emptyDoc)).1 :=
+    ReachLM.step _ _ (ReachLM.base _ preOps_reach) (by decide +kernel)
+  rw [applyOpM_load] at h
+  exact h
+
+theorem wPost_inv : Inv wPost :=
+  reachLM_inv ldOkSpec_hyp ldOkSpec_refWF (by decide) (by decide) (fun t h => by rw [ldOkSpec_isRef] at h; cases h) wPost_reach
 
 /-- non-vacuity: the guard admits the merging load of the same document under another name into the model right after its
 first load, the load is accepted (the two packages of the document merge with the two of the model, nothing is added) -/
